@@ -160,7 +160,7 @@ def correspondence(ck, binpath, n, methods_file, corpus):
             cases.append(v)
     terms = [case_to_coq(ck, c) for c in cases]
     ck.log("trace validation: %d cases from the server, evaluating the model" % len(cases))
-    failing = ck.coq_failing("corr", terms, REQS, prelude=prelude(), per_shard=20)
+    failing = ck.coq_failing("corr", terms, REQS, prelude=prelude(), per_shard=8)
     ck.log("trace validation done")
     for c in cases:
         ck.count_case(("corr", case_key(c["msgs"])), nontrivial=case_nontrivial(c["msgs"]))
@@ -315,7 +315,7 @@ def main(argv):
     corr_ok = ok or os.path.exists(os.path.join(COQ, "theories/C24/Corr.vo"))
     if bins and table:
         if corr_ok:
-            correspondence(ck, bins["c24"], ck.scale(150, 1500), methods_file, corpus)
+            correspondence(ck, bins["c24"], ck.scale(90, 1500), methods_file, corpus)
             if ls_bin:
                 stdio(ck, bins["c24"], ls_bin)
         if ck.broken:
